@@ -361,6 +361,27 @@ theorem loc_lidStep (x : Loc) (a : LOp) : LidStep x (loc x a).1 := by
     simp only [loc]; split
     · exact (Keeps.refl x).lidStep
     · exact (resetStep_keeps _ _).lidStep
+  | gresetl pre leader =>
+    simp only [loc]; split
+    · exact (Keeps.refl x).lidStep
+    · cases h : x.c.lease with
+      | none =>
+        apply Keeps.lidStep
+        exact ⟨rfl, by simp [lid, h], rfl, rfl, fun hw => ⟨by simpa [lid, h] using hw.1, by simp [h]⟩⟩
+      | some l =>
+        apply Keeps.lidStep
+        refine ⟨by cases pre <;> simp, by simp [lid, h], rfl, rfl, ?_⟩
+        intro hw
+        refine ⟨fun hp => by simpa [lid, h] using hw.1 hp, ?_⟩
+        intro l' hl'; simp at hl'; subst hl'; simp
+  | rfinish rv =>
+    simp only [loc]
+    cases h : x.c.closing with
+    | none => exact (Keeps.refl x).lidStep
+    | some pl =>
+      obtain ⟨pre, leader⟩ := pl
+      apply Keeps.lidStep
+      refine ⟨by cases pre <;> cases rv <;> simp, rfl, rfl, rfl, fun hw => hw⟩
   | delkey f rv =>
     simp only [loc]; split
     · exact (Keeps.refl x).lidStep
@@ -514,7 +535,7 @@ theorem fireWatchers_getElem (b : Etcd) (s : St) (j : Nat) (c' : Cont)
     (h : (fireWatchers b s).conts[j]? = some c') :
     ∃ c, s.conts[j]? = some c ∧ c'.lease = c.lease ∧ c'.key = c.key ∧ c'.member = c.member ∧
       c'.value = c.value ∧ c'.clock = c.clock ∧ c'.tsoInit = c.tsoInit ∧ c'.won = c.won ∧
-      c'.pending = c.pending ∧ (c'.cache = c.cache ∨ c'.cache = 0) := by
+      c'.pending = c.pending ∧ (c'.cache = c.cache ∨ c'.cache = 0) ∧ c'.closing = c.closing := by
   simp only [fireWatchers, List.getElem?_map, Option.map_eq_some_iff] at h
   obtain ⟨c, hc, rfl⟩ := h
   refine ⟨c, hc, ?_⟩
@@ -654,6 +675,8 @@ structure LF (e : Etcd) (c : Cont) : Prop where
   serve : (c.tsoInit = true ∨ c.cache = c.member) → c.check = true → c.won = true
   pend  : c.pending.isSome = true → c.value = c.member ∧ c.won = false
   mem   : c.member ≠ 0
+  clos  : c.closing.isSome = true → c.won = false ∧ c.pending = none ∧
+            ∀ l, c.lease = some l → l.expire = .closed
 
 /-- the call-order / clock assumptions as seen by the acting contender -/
 def LPre (x : Loc) : LOp → Prop
@@ -673,11 +696,12 @@ theorem closeLease_LF (x : Loc) (rv : Bool) (hw : x.c.won = false) (hp : x.c.pen
   cases h : x.c.lease with
   | none =>
     simp only [h] at hc ⊢
-    exact ⟨by simp [h], by simp [hw], by simp [hc], by simp [hp], hm⟩
+    exact ⟨by simp [h], by simp [hw], by simp [hc], by simp [hp], hm, fun _ => ⟨hw, hp, by simp [h]⟩⟩
   | some l =>
     simp only [h] at hc ⊢
-    refine ⟨?_, by simp [hw], by simp [hc], by simp [hp], hm⟩
-    intro l' hl'; simp at hl'; subst hl'; simp [Expire.expiredAt]
+    refine ⟨?_, by simp [hw], by simp [hc], by simp [hp], hm, fun _ => ⟨hw, hp, ?_⟩⟩
+    · intro l' hl'; simp at hl'; subst hl'; simp [Expire.expiredAt]
+    · intro l' hl'; simp at hl'; subst hl'; rfl
 
 theorem resetStep_LF (x : Loc) (rv : Bool) (hp : x.c.pending = none) (hm : x.c.member ≠ 0) :
     LF (resetStep x rv).etcd (resetStep x rv).c :=
@@ -701,12 +725,12 @@ theorem check_mono (c : Cont) (t : Nat) (h : c.clock ≤ t) (hc : ({ c with cloc
     exact expiredAt_mono _ _ _ h hc
 
 theorem grantStep_LF (x : Loc) (ttl extra) (h : LF x.etcd x.c)
-    (hpre : x.c.cache ≠ x.c.member ∧ x.c.tsoInit = false) :
+    (hpre : x.c.cache ≠ x.c.member ∧ x.c.tsoInit = false) (hcl : x.c.closing = none) :
     LF (grantStep x ttl extra).1.etcd (grantStep x ttl extra).1.c := by
   unfold grantStep
   split
-  · exact ⟨by simp, by simp, by simp [hpre.1, hpre.2], by simp, h.mem⟩
-  · refine ⟨?_, by simp, by simp [hpre.1, hpre.2], by simp, h.mem⟩
+  · exact ⟨by simp, by simp, by simp [hpre.1, hpre.2], by simp, h.mem, by simp [hcl]⟩
+  · refine ⟨?_, by simp, by simp [hpre.1, hpre.2], by simp, h.mem, by simp [hcl]⟩
     intro l hl; simp at hl; subst hl; simp [Etcd.grant]
 
 theorem campaignTxn_LF (x : Loc) (l extra f rv) (h : LF x.etcd x.c) (hw : LWf x.c)
@@ -727,7 +751,11 @@ theorem campaignTxn_LF (x : Loc) (l extra f rv) (h : LF x.etcd x.c) (hw : LWf x.
         by_cases h4 : f = .none <;> simp [h1, h2, h3, h4] at hr
       exact hr
     subst he1
-    refine ⟨?_, ?_, by simp, by simp, h.mem⟩
+    have hcl : x.c.closing = none := by
+      cases hc : x.c.closing with
+      | none => rfl
+      | some v => have := (h.clos (by simp [hc])).2.1; rw [hp] at this; cases this
+    refine ⟨?_, ?_, by simp, by simp, h.mem, by simp [hcl]⟩
     · intro l' hl' hne hex
       simp only [apply1_live]
       exact h.live l' (by simpa using hl') hne (by simpa using hex)
@@ -751,7 +779,7 @@ theorem apply1_kv_other (e : Etcd) (op : EOp) (k : Key) (h : op.key ≠ k) : (e.
 
 theorem LF_of_etcd_eq (e e' : Etcd) (c : Cont) (h : LF e c) (hl : e'.live = e.live)
     (hk : e'.kv (.leader c.key) = e.kv (.leader c.key)) : LF e' c :=
-  ⟨by rw [hl]; exact h.live, by rw [hl, hk]; exact h.won, h.serve, h.pend, h.mem⟩
+  ⟨by rw [hl]; exact h.live, by rw [hl, hk]; exact h.won, h.serve, h.pend, h.mem, h.clos⟩
 
 theorem writeStep_LF (x : Loc) (w f) (h : LF x.etcd x.c) (hpre : w = .tsSync → x.c.won = true)
     (hp : x.c.pending = none) :
@@ -770,7 +798,7 @@ theorem writeStep_LF (x : Loc) (w f) (h : LF x.etcd x.c) (hpre : w = .tsSync →
             subst hn
             simp only [ho, if_true]
             simp
-            exact ⟨hbase.live, hbase.won, fun _ _ => hpre rfl, by simp [hp], h.mem⟩
+            exact ⟨hbase.live, hbase.won, fun _ _ => hpre rfl, by simp [hp], h.mem, h.clos⟩
           · simp only [h0, hf, ho, hn, hw, if_false, if_true]; exact hbase
         · simp only [h0, hf, ho, hn, if_false, if_true]; exact hbase
       · simp only [h0, hf, ho, if_false]; exact h
@@ -781,14 +809,14 @@ open PdModel.Spec
 
 theorem LF_del_leader (x : Loc) (h : LF x.etcd x.c) (hw : x.c.won = false) :
     LF (x.etcd.apply1 (.del (.leader x.c.key))) x.c :=
-  ⟨by simpa using h.live, by simp [hw], h.serve, h.pend, h.mem⟩
+  ⟨by simpa using h.live, by simp [hw], h.serve, h.pend, h.mem, h.clos⟩
 
 theorem loc_LF (x : Loc) (a : LOp) (h : LF x.etcd x.c) (hw : LWf x.c) (hpre : LPre x a) :
     LF (loc x a).1.etcd (loc x a).1.c := by
   cases a with
   | clock t =>
     simp only [LPre] at hpre
-    refine ⟨?_, h.won, ?_, h.pend, h.mem⟩
+    refine ⟨?_, h.won, ?_, h.pend, h.mem, h.clos⟩
     · intro l hl hne hex
       exact h.live l hl hne (expiredAt_mono _ _ _ hpre hex)
     · intro hs hc
@@ -797,7 +825,10 @@ theorem loc_LF (x : Loc) (a : LOp) (h : LF x.etcd x.c) (hw : LWf x.c) (hpre : LP
     simp only [loc]
     split
     · exact h
-    · have hg := grantStep_LF x ttl extra h hpre
+    · next hbusy =>
+      have hcl : x.c.closing = none := by
+        cases hc : x.c.closing <;> simp [hc] at hbusy ⊢
+      have hg := grantStep_LF x ttl extra h hpre hcl
       have hgw := (grantStep_lidStep x ttl extra).2.2.2.1 hw
       have hp := grantStep_parked x ttl extra
       generalize grantStep x ttl extra = r at hg hgw hp
@@ -814,7 +845,10 @@ theorem loc_LF (x : Loc) (a : LOp) (h : LF x.etcd x.c) (hw : LWf x.c) (hpre : LP
   | gcampaign ttl extra =>
     simp only [loc]; split
     · exact h
-    · exact grantStep_LF x ttl extra h hpre
+    · next hbusy =>
+      have hcl : x.c.closing = none := by
+        cases hc : x.c.closing <;> simp [hc] at hbusy ⊢
+      exact grantStep_LF x ttl extra h hpre hcl
   | finish f rv =>
     simp only [loc, finishStep]
     split
@@ -833,7 +867,8 @@ theorem loc_LF (x : Loc) (a : LOp) (h : LF x.etcd x.c) (hw : LWf x.c) (hpre : LP
         split
         · next hlive =>
           simp only [LPre] at hpre
-          refine ⟨?_, ?_, fun _ _ => hpre, h.pend, h.mem⟩
+          refine ⟨?_, ?_, fun _ _ => hpre, h.pend, h.mem,
+            fun hc => absurd hpre (by simp [(h.clos hc).1])⟩
           · intro l' hl' _ _; simp at hl'; subst hl'; exact hlive
           · intro _
             obtain ⟨l0, hl0, a1, a2, a3⟩ := h.won hpre
@@ -844,6 +879,39 @@ theorem loc_LF (x : Loc) (a : LOp) (h : LF x.etcd x.c) (hw : LWf x.c) (hpre : LP
     simp only [loc]; split
     · exact h
     · next hp => exact resetStep_LF x rv (by simpa using hp) h.mem
+  | gresetl pre leader =>
+    simp only [loc]; split
+    · exact h
+    · next hbusy =>
+      have hpn : x.c.pending = none := by cases hc : x.c.pending <;> simp [hc] at hbusy ⊢
+      have hcl : x.c.closing = none := by cases hc : x.c.closing <;> simp [hc] at hbusy ⊢
+      cases hl : x.c.lease with
+      | none =>
+        exact ⟨by simp [hl], by simp, by simp [Cont.check, hl], by simp [hpn], h.mem, by simp [hcl]⟩
+      | some l =>
+        refine ⟨?_, by simp, by simp [Cont.check, Expire.expiredAt], by simp [hpn], h.mem, ?_⟩
+        · intro l' hl'; simp at hl'; subst hl'; simp [Expire.expiredAt]
+        · intro _; exact ⟨rfl, hpn, by intro l' hl'; simp at hl'; subst hl'; rfl⟩
+  | rfinish rv =>
+    simp only [loc]
+    cases hc : x.c.closing with
+    | none => exact h
+    | some pl =>
+      obtain ⟨pre, leader⟩ := pl
+      obtain ⟨hw, hpn, hcl⟩ := h.clos (by simp [hc])
+      have hck : x.c.check = false := by
+        simp only [Cont.check]
+        cases hl : x.c.lease with
+        | none => rfl
+        | some l => simp [hcl l hl, Expire.expiredAt]
+      refine ⟨?_, by simp [hw], ?_, by simp [hpn], h.mem, by simp⟩
+      · intro l hl _ hex
+        simp only at hl hex
+        rw [hcl l hl] at hex
+        simp [Expire.expiredAt] at hex
+      · intro _ hc2
+        have : x.c.check = true := by simpa [Cont.check] using hc2
+        rw [hck] at this; cases this
   | delkey f rv =>
     simp only [loc]; split
     · exact h
@@ -875,9 +943,9 @@ theorem loc_LF (x : Loc) (a : LOp) (h : LF x.etcd x.c) (hw : LWf x.c) (hpre : LP
   | tso => exact h
   | enable =>
     simp only [LPre] at hpre
-    exact ⟨h.live, h.won, fun _ _ => hpre, h.pend, h.mem⟩
+    exact ⟨h.live, h.won, fun _ _ => hpre, h.pend, h.mem, h.clos⟩
   | unset =>
-    refine ⟨h.live, h.won, ?_, h.pend, h.mem⟩
+    refine ⟨h.live, h.won, ?_, h.pend, h.mem, h.clos⟩
     intro hs hc
     rcases hs with hs | hs
     · exact h.serve (Or.inl hs) hc
@@ -894,21 +962,21 @@ theorem loc_LF (x : Loc) (a : LOp) (h : LF x.etcd x.c) (hw : LWf x.c) (hpre : LP
       · split
         · exact resetStep_LF { x with etcd := x.etcd.apply1 (.del (.leader x.c.key)) } true hp.1 h.mem
         · next y hy hne =>
-          refine ⟨h.live, h.won, ?_, h.pend, h.mem⟩
+          refine ⟨h.live, h.won, ?_, h.pend, h.mem, h.clos⟩
           intro hs _
           rcases hs with hs | hs
           · simp [hpre.2.2] at hs
           · exact absurd hs hne
   | unwatch =>
     simp only [loc]; split
-    · refine ⟨h.live, h.won, ?_, h.pend, h.mem⟩
+    · refine ⟨h.live, h.won, ?_, h.pend, h.mem, h.clos⟩
       intro hs hc
       rcases hs with hs | hs
       · exact h.serve (Or.inl hs) hc
       · exact absurd hs.symm h.mem
     · exact h
   | tsoreset =>
-    refine ⟨h.live, h.won, ?_, h.pend, h.mem⟩
+    refine ⟨h.live, h.won, ?_, h.pend, h.mem, h.clos⟩
     intro hs hc
     rcases hs with hs | hs
     · cases hs
@@ -927,7 +995,7 @@ theorem loc_LF (x : Loc) (a : LOp) (h : LF x.etcd x.c) (hw : LWf x.c) (hpre : LP
   | crash =>
     simp only [loc]; split
     · exact h
-    · exact ⟨by simp, by simp, by simp [Cont.check], by simp, h.mem⟩
+    · exact ⟨by simp, by simp, by simp [Cont.check], by simp, h.mem, by simp⟩
 
 end PdModel.Election
 namespace PdModel.Election
@@ -1124,6 +1192,26 @@ theorem loc_guar (x : Loc) (a : LOp) (hpre : LPre x a) : Guar x (loc x a).1 := b
     simp only [loc]; split
     · exact Guar.of_eq rfl
     · exact resetStep_guar _ _
+  | gresetl pre leader =>
+    simp only [loc]; split
+    · exact Guar.of_eq rfl
+    · cases hl : x.c.lease with
+      | none => exact Guar.of_eq rfl
+      | some l =>
+        cases pre
+        · exact guar_revoke _ _ (by simp [lid, hl])
+        · exact Guar.of_eq (by simp)
+  | rfinish rv =>
+    simp only [loc]
+    cases hc : x.c.closing with
+    | none => exact Guar.of_eq rfl
+    | some pl =>
+      obtain ⟨pre, leader⟩ := pl
+      cases pre
+      · exact Guar.of_eq (by simp)
+      · cases rv
+        · exact Guar.of_eq (by simp)
+        · exact guar_revoke _ _ (by simp [lid]; rfl)
   | delkey f rv =>
     simp only [loc]; split
     · exact Guar.of_eq rfl
@@ -1195,7 +1283,7 @@ theorem LF_other (x x' : Loc) (cj : Cont) (g : Guar x x') (h : LF x.etcd cj)
     (h1 : lid cj ≠ 0 → lid cj ≠ lid x.c ∧ lid cj ≠ lid x'.c)
     (hle : lid cj ≤ x.etcd.granted)
     (hd : ¬ (cj.key = x.c.key ∧ cj.member = x.c.member)) : LF x'.etcd cj := by
-  refine ⟨?_, ?_, h.serve, h.pend, h.mem⟩
+  refine ⟨?_, ?_, h.serve, h.pend, h.mem, h.clos⟩
   · intro l hl hne hex
     have hlid : lid cj = l.id := by simp [lid, hl]
     have := h1 (by rw [hlid]; exact hne)
@@ -1288,7 +1376,7 @@ theorem invF_step0 (s : St) (h : InvF s) (op : Op) (hf : faithful s op = true) :
     · intro j c' hc'
       rcases hget j c' hc' with hc | ⟨_, rfl⟩
       · exact h.lf j c' hc
-      · exact ⟨by simp, by simp, by simp [Cont.check], by simp, hm⟩
+      · exact ⟨by simp, by simp, by simp [Cont.check], by simp, hm, by simp⟩
     · intro i j ci cj hij hci hcj
       rcases hget i ci hci with hi | ⟨hi, rfl⟩ <;> rcases hget j cj hcj with hj | ⟨hj, rfl⟩
       · exact h.distinct i j ci cj hij hi hj
@@ -1306,7 +1394,7 @@ theorem invF_step0 (s : St) (h : InvF s) (op : Op) (hf : faithful s op = true) :
     have hx := hf _ hv
     rw [lid_viewOf] at hx
     simp only [step0]
-    refine ⟨?_, ?_, hlf.serve, hlf.pend, hlf.mem⟩
+    refine ⟨?_, ?_, hlf.serve, hlf.pend, hlf.mem, hlf.clos⟩
     · intro l hl hne hex
       have hlid : lid c = l.id := by simp [lid, hl]
       have hlive := hlf.live l hl hne hex
@@ -1334,7 +1422,7 @@ theorem invF_step0 (s : St) (h : InvF s) (op : Op) (hf : faithful s op = true) :
     intro j c hc
     have hlf := h.lf j c hc
     simp only [step0, Etcd.grant]
-    refine ⟨?_, ?_, hlf.serve, hlf.pend, hlf.mem⟩
+    refine ⟨?_, ?_, hlf.serve, hlf.pend, hlf.mem, hlf.clos⟩
     · intro l hl hne hex; simp [hlf.live l hl hne hex]
     · intro hw
       obtain ⟨l, hl, hne, hp, hr⟩ := hlf.won hw
@@ -1405,10 +1493,10 @@ theorem invF_step (s : St) (h : InvF s) (op : Op) (hf : faithful s op = true) : 
   generalize (step0 s op).1 = s1 at h1 h0
   refine ⟨h0, ?_, ?_⟩
   · intro j c' hc'
-    obtain ⟨c, hc, e1, e2, e3, e4, e5, e6, e7, e8, e9⟩ := fireWatchers_getElem _ _ _ _ hc'
+    obtain ⟨c, hc, e1, e2, e3, e4, e5, e6, e7, e8, e9, e10⟩ := fireWatchers_getElem _ _ _ _ hc'
     have hlf := h1.lf j c hc
     simp only [fireWatchers_etcd]
-    refine ⟨?_, ?_, ?_, ?_, by rw [e3]; exact hlf.mem⟩
+    refine ⟨?_, ?_, ?_, ?_, by rw [e3]; exact hlf.mem, by rw [e10, e7, e8, e1]; exact hlf.clos⟩
     · intro l hl hne hex; rw [e1] at hl; rw [e5] at hex; exact hlf.live l hl hne hex
     · intro hw; rw [e7] at hw
       obtain ⟨l, hl, hne, hp, hr⟩ := hlf.won hw
